@@ -404,6 +404,8 @@ pub const README_STYLE: &[&str] = &[
     "SELECT x * 2 + y / 3 - 1 AS v, x ^ 2, (1, 2), 'it\\'s', 1.5, TRUE, false, null FROM test WHERE a = b OR c != d AND e <= f",
     "SELECT percentile(x, 0.5), string_agg(k, ', '), count(DISTINCT x), sum(x) * 2 FROM test GROUP BY k, x + 1 HAVING sum(x) > 10 AND k IS NOT NULL",
     "select k from t where v is null limit 0",
+    // NOT over IN / NOT IN stays a node of its own (with a NULL operand or member `NOT (x IN …)` and `x NOT IN …` differ)
+    "SELECT NOT x IN (1, 2), NOT (x NOT IN (1)), NOT NOT x IN (3) FROM t WHERE NOT k IN ('a', NULL) AND NOT (x NOT IN (NULL, 1))",
     "CREATE TABLE connections(\n    line = 'connection from ([0-9.]+) \\\\((.+)?\\\\) at ([a-zA-Z]+) ([a-zA-Z]+) ([0-9]+) ([0-9]+):([0-9]+):([0-9]+) ([0-9]+)',\n\n    line[1] => ip TEXT,\n    line[2] => hostname TEXT,\n    line[9] => year INT,\n    line[4] => month TEXT,\n    line[5] => day INT,\n    line[6] => hour INT,\n    line[7] => minute INT,\n    line[8] => second INT\n);",
     "CREATE TABLE clients(\n    { .timestamp } => timestamp INT,\n    { .metadata.device_id } => device_id INT CONVERT,\n    { .metadata.mac_address } => mac_address TEXT,\n    { .events } => events TEXT[]\n);",
     "CREATE TABLE connections(\n    line = split ';',\n\n    line[1] => ip TEXT,\n    line[2] => hostname TEXT,\n    line[3] => year INT NOT NULL,\n    line[4] => month TEXT --test comment\n);",
@@ -425,7 +427,18 @@ pub const WIDE: &[&str] = &[
 
 /// a valid (well-formed by construction) statement text
 pub fn gen_valid(rng: &mut Rng) -> (String, &'static str) {
-    match rng.below(10) {
+    match rng.below(12) {
+        10 | 11 => {
+            // every expression form of the reference grammar of C13 (minimal parentheses) as a projection and as a filter:
+            // the lowering of each form against the model's (unknown function names and the like end as conversion errors
+            // on both sides)
+            let d = 1 + rng.below(4);
+            let e1 = crate::c13::gen_expr(rng, d);
+            let e2 = crate::c13::gen_expr(rng, d);
+            let p = crate::c13::layout(&crate::c13::words(&e1, crate::c13::Style::Minimal), false);
+            let w = crate::c13::layout(&crate::c13::words(&e2, crate::c13::Style::Minimal), false);
+            (if rng.chance(1, 2) { format!("SELECT {} FROM t WHERE {}", p, w) } else { format!("SELECT {}, {} AS y FROM t", p, w) }, "exprs")
+        }
         0 => ((*rng.pick(README_STYLE)).to_owned(), "readme"),
         1 => ((*rng.pick(WIDE)).to_owned(), "wide"),
         2 | 3 | 4 => {
